@@ -153,7 +153,7 @@ Open Scope Z_scope.
     },
     "C05": {
         "title": "Unit invariance: times scale linearly with slowness and with length - exact arithmetic over the generated kernels",
-        "header": HDR_R.format(imports="From FT.model Require Import Api.\nFrom FT.proofs Require Import Sweep2dProofs OperatorsR ApiProofs.\nFrom FT.proofs Require Operators3R InitSym InitExact."),
+        "header": HDR_R.format(imports="From FT.model Require Import Api.\nFrom FT.proofs Require Import Sweep2dProofs OperatorsR ApiProofs.\nFrom FT.proofs Require Operators3R InitSym InitExact SolveScale2d."),
         "theorems": [
             ("t_ana_scale_slowness", "OperatorsR.t_ana_scale_slowness", "analytic seed: slowness scaling"),
             ("t_ana_scale_length", "OperatorsR.t_ana_scale_length", "analytic seed: length scaling (source position in grid units is unchanged)"),
@@ -171,6 +171,10 @@ Open Scope Z_scope.
             ("init_scale_length", "InitExact.fteik2d_init_scale_length", "and under length scaling (dz, dx x c; source position in grid units unchanged)"),
             ("init_scale_slowness_ge1", "InitExact.fteik2d_init_scale_slowness_ge1", "for c >= 1 the caveat is a condition on the reference run alone"),
             ("init_down_is_transpose_of_east", "InitSym.down_is_transpose_of_east_explicit", "the down copy uses dz exactly where the east copy uses dx (transposition pairing)"),
+            ("solve2d_scale_slowness", "SolveScale2d.fteik2d_scale_slowness", "the WHOLE 2D solver under slowness scaling by any c > 0: the scaled problem returns, vzero x c, every traveltime x c (or the placeholder in both runs) - under the placeholder caveats Hinit (initial grids reach the same nodes) and Hsweep (a condition on the reference run: candidates stay on one side of 1e5), i.e. outside findings F10/F11"),
+            ("solve2d_scale_length", "SolveScale2d.fteik2d_scale_length", "and under scaling of dz, dx and the source by c (grid coordinates, cells, iflag unchanged)"),
+            ("solve2d_scale_raises", "SolveScale2d.fteik2d_scale_raises", "the scaled problem raises iff the reference problem does (no caveat)"),
+            ("solve2d_scale_slowness_bounded", "SolveScale2d.fteik2d_scale_slowness_bounded", "numeric form of the caveat for c >= 1: c * (M + N * 2 h S) < 1e5"),
         ],
         "examples": [],
     },
